@@ -537,6 +537,7 @@ func genEventsPlan(r *rand.Rand, tier string) *vfPlan {
 		return p
 	}
 	// workload A: publisher
+	p.Cfg.AwsRoles = chance(r, 0.5)
 	nsub := r.IntN(4)
 	for i := 1; i <= nsub; i++ {
 		add(vfStep{Op: "subscribe", N: int64(i), A: pick(r, []string{"fast", "fast", "stalled"})})
@@ -554,6 +555,8 @@ func genEventsPlan(r *rand.Rand, tier string) *vfPlan {
 		switch x := r.IntN(100); {
 		case x < 50:
 			add(vfStep{Op: "certgen", Sess: s, User: u, A: pick(r, []string{"", "ssh", "x509", "x509-kubernetes"}), B: pick(r, []string{"user_p256_1", "user_rsa2048_1", "user_ed25519_1"}), D: pick(r, []string{"", "1h"})})
+		case x < 56 && p.Cfg.AwsRoles:
+			add(vfStep{Op: "awsrole", A: pick(r, []string{"AKIAROLE1", "AKIAROLE1", "AKIAROLE2", "AKIAOTHER"}), B: pick(r, []string{"user_p256_1", "user_rsa2048_1"})})
 		case x < 62:
 			add(vfStep{Op: "rolecert", Sess: "adm", A: "auto1", L: []string{"10.0.0.0/8"}, B: "user_p256_3"})
 		case x < 72:
